@@ -162,8 +162,9 @@ class C06World(object):
             snapshot = copy.deepcopy(matrix) if dis is None else None
             n = max(r, c)
             # measured on the unchanged tree: at most about 30 n call events per solve (the loops
-            # themselves make no calls), so this is a 70x margin and still cuts a spin at once
-            budget = 200 * n * n + 2000
+            # themselves make no calls).  300 n^3 + 5000 leaves room for an implementation that
+            # calls a helper per cell and still cuts a spin within a fraction of a second.
+            budget = 300 * n ** 3 + 5000
             try:
                 o, steps = seams.run_with_budget(lambda: core.outcome(solver.compute, matrix), budget)
             except seams.BudgetExceeded:
